@@ -377,6 +377,8 @@ class World(masterloop.LoopWorld):
         self.writes_at_cycle_end = 0
         self.placement_at_cycle_end = None
         self.intruded = set()
+        self.pending_intrusion = None
+        self.intrusion_fired = False
         self._setup_static()
 
     # ------------------------------------------------------------------
@@ -428,6 +430,8 @@ class World(masterloop.LoopWorld):
             self.zk.expire(self.master_client.client_id[0])
         client = self.zk.connect('master%d' % self.master_gen)
         self.master_client = client
+        if self.pending_intrusion is not None:
+            self._arm_intrusion(self.pending_intrusion)
         self.master = None
         self.queue = []
         self.seen_cversion = {}
@@ -862,6 +866,18 @@ class World(masterloop.LoopWorld):
             # loop tier: the master-stepping ops are carried out by the
             # repo's own run_loop (engines/masterloop.py)
             name = masterloop.LOOP_OPS.get(name, name)
+        if op.get('intrude') and name == 'restart':
+            # armed by start_master once the new master's session exists
+            self.pending_intrusion = op['intrude']
+            try:
+                self.op_restart(op)
+            finally:
+                self.pending_intrusion = None
+                if self.master_client is not None:
+                    self.master_client.call_hook = None
+                self.intruded = set()
+                self.intrusion_fired = False
+            return
         if op.get('intrude') and self.master_client is not None and \
                 name in ('process', 'master_cycle', 'lop_step',
                          'lop_cycle'):
@@ -872,6 +888,7 @@ class World(masterloop.LoopWorld):
                 if self.master_client is not None:
                     self.master_client.call_hook = None
                 self.intruded = set()
+                self.intrusion_fired = False
             return
         getattr(self, 'op_' + name)(op)
 
@@ -896,6 +913,7 @@ class World(masterloop.LoopWorld):
                 raise simkit.HarnessError('intrusion %r' % (inner,))
             self.faults['mid_call_world_event'] = \
                 self.faults.get('mid_call_world_event', 0) + 1
+            self.intrusion_fired = True
             if inner.get('name'):
                 self.intruded.add(inner['name'])
             getattr(self, 'op_' + inner['op'])(inner)
@@ -1536,6 +1554,11 @@ class World(masterloop.LoopWorld):
             # a state on which a newly elected master dies in load_model /
             # init_schedule leaves the cell without a scheduler for good
             self.master = None
+            if self.intrusion_fired:
+                # (not a state: something changed under the starting master;
+                # the next start sees the state as it is)
+                self.on_master_died(err)
+                return
             self.fail('%s:master-cannot-start:%s' % (
                 self.prop if self.prop in ('C09', 'C10', 'C11') else 'C09',
                 err.where.split(':')[0]), '%s' % err)
@@ -1904,14 +1927,22 @@ class Generator:
     def next_op(self, world):
         op = self._next_op(world)
         p_intrude = self.config.get('p_intrude')
-        if p_intrude and op['op'] in ('process', 'master_cycle') and \
+        if p_intrude and op['op'] in ('process', 'master_cycle',
+                                      'restart') and \
                 op.get('crash_at') is None and not op.get('intrude') and \
                 self.irng.random() < p_intrude:
             inner = self._intrusion(world)
+            if op['op'] == 'restart':
+                # (a start makes hundreds of calls; the harness's record of
+                # what a starting master was shown is taken after the load,
+                # so only the properties that need none of it)
+                if world.prop in CELL_PROPS:
+                    inner = None
+                at = self.irng.randint(1, 150)
+            else:
+                at = self.irng.choice([1, 2, 3, 4, 5, 6, 8, 10, 14, 20])
             if inner is not None:
-                op = dict(op, intrude={
-                    'at': self.irng.choice([1, 2, 3, 4, 5, 6, 8, 10, 14, 20]),
-                    'op': inner})
+                op = dict(op, intrude={'at': at, 'op': inner})
         return op
 
     def _intrusion(self, world):
